@@ -72,7 +72,7 @@ PROPS = {
         'assumptions': ['encoding/gob is the real encoder/decoder (not modelled)'],
     },
     'C20': {
-        'modules': ['OtterVerif.Props.C20'],
+        'modules': ['OtterVerif.Props.C20', 'OtterVerif.Props.C20Conc'],
         'engines': [seq(['mix', 'load', 'bound'], 300, 10000, lambda f: f['class'] == 'C20'),
                     {'kind': 'unit', 'name': 'conclin', 'hcmd': 'conc-lin', 'dcmd': 'conclin', 'quick': 120, 'thorough': 6000, 'chunk': 20, 'args': ['-target', 'cache'],
                      'accept': lambda f: 'C20' in f['msg']},
